@@ -211,6 +211,10 @@ def run(facts, tr, rep):
             continue
         d = peel(tr.expand(tr.operand(b, sc.args[0], sc.loc)))
         nb = calls_in(tr, d, lambda cc: cc.name == "next_backoff")
+        # the sleep lasts the backoff itself, not something computed from it (`backoff - time the attempt took` retries early)
+        whole = all(peel(lf)[0] == "call" and tr.call_of(peel(lf)).name == "next_backoff" for lf in leaves(d))
+        if nb and not whole:
+            nb = []
         if nb:
             arg = peel(tr.expand(tr.operand(nb[0].g.b, nb[0].args[1], nb[0].loc)))
             before_inc = inc_bb in g.reach([nb[0].bb], kinds=(N,)) and not g.node_dominates(inc_bb, nb[0].bb)
